@@ -119,7 +119,20 @@ pub fn stack_for(class: &str, r: &mut StdRng) -> Vec<LayerF> {
         "frame" => vec![LayerF::Frame(random_iso(r, 0.3))],
         "pgram" => vec![random_pgram(r)],
         "tool>pgram" => vec![LayerF::Tool(random_iso(r, 0.3)), random_pgram(r)],
-        "pgram>pgram" => vec![random_pgram(r), random_pgram(r)],
+        "pgram>pgram" => {
+            // half of the stacks are chained: the outer coupled joint drives the inner coupling, non-integer scaling
+            let outer = random_pgram(r);
+            let inner = if r.gen_bool(0.5) {
+                if let LayerF::Pgram { driven, coupled, .. } = &outer {
+                    let mut c2 = r.gen_range(0..4);
+                    while c2 == *coupled || c2 == *driven { c2 = (c2 + 1) % 6; }
+                    LayerF::Pgram { driven: *coupled, coupled: c2, scaling: [0.5, -0.5, 1.5, 0.3][r.gen_range(0..4)] }
+                } else { random_pgram(r) }
+            } else { random_pgram(r) };
+            vec![outer, inner]
+        }
+        "pgram>tool" => vec![random_pgram(r), LayerF::Tool(random_iso(r, 0.3))],
+        "pgram>base+tool" => vec![random_pgram(r), LayerF::Tool(random_iso(r, 0.3)), LayerF::Base(random_iso(r, 0.5))],
         "axial-tool" => vec![LayerF::Tool(axial_iso(r))],
         "base+axial-tool" => vec![LayerF::Tool(axial_iso(r)), LayerF::Base(random_iso(r, 0.5))],
         _ => vec![],
@@ -319,7 +332,9 @@ pub fn instance(sc: &Value, r: &mut StdRng) -> Value {
             (centered && { let d = (a[5] - caller_j6).rem_euclid(2.0 * PI); d.min(2.0 * PI - d) < 1e-12 })).collect()
     } else { vec![] };
     let plain: Vec<Vec<i64>> = if entry.contains("continuing") {
-        let pl = if five_entry { call(robot.kin.as_ref(), "inverse_5dof", &pose, &prev, prev[5]) } else { call(robot.kin.as_ref(), "inverse", &pose, &prev, j6) };
+        // (5-DOF: the plain counterpart of a continuation call is the 5-DOF solve with the same J6 = previous J6;
+        //  a robot declared 5-DOF answers plain `inverse` with J6 = 0, which the limits may treat differently)
+        let pl = if five { call(robot.kin.as_ref(), "inverse_5dof", &pose, &prev, prev[5]) } else { call(robot.kin.as_ref(), "inverse", &pose, &prev, j6) };
         pl.unwrap_or_default().iter().map(au6).collect()
     } else { vec![] };
     // "the same query without limits": the sentinel means "relative to the constraint centres", which the
@@ -350,6 +365,27 @@ pub fn instance(sc: &Value, r: &mut StdRng) -> Value {
     ev.insert("plain".into(), json!(plain));
     ev.insert("free".into(), json!(free));
     ev.insert("resolve".into(), json!(resolve));
+    // the wrapper stack's own forward kinematics and link poses at the truth configuration against the model
+    let fwd_n = match guarded(|| (robot.kin.forward(&q), robot.kin.forward_with_joint_poses(&q))) {
+        Some((f, links)) => {
+            let fi = Iso::from_na(&f);
+            let w = robot.ofk(&q);
+            let mut e = fi.dpos(&w).max(fi.drot(&w));
+            // link poses: bases in front, the (de-coupled) chain behind; tools do not move links, frames move the last one
+            let chain = oracle::chain(&robot.p, &robot.leaf_joints(&q));
+            let mut base = Iso::identity();
+            for l in robot.layers.iter().rev() { if let LayerF::Base(b) = l { base = b.mul(&base); } }
+            let has_frame = robot.layers.iter().any(|l| matches!(l, LayerF::Frame(_)));
+            for i in 0..(if has_frame { 5 } else { 6 }) {
+                let li = Iso::from_na(&links[i]);
+                let wi = base.mul(&chain[i]);
+                e = e.max(li.dpos(&wi)).max(li.drot(&wi));
+            }
+            nano(e)
+        }
+        None => 2_000_000_000,
+    };
+    ev.insert("fwd_n".into(), json!(fwd_n));
     ev.insert("truth".into(), json!({"known": known, "q": au6(&q), "nonsingular": nonsingular(&m), "wrist_ok": m.wrist > 0.01, "realised_by_prev": realised}));
     ev.insert("params".into(), robots::params_json(&p));
     // the wrist twin negates the GEOMETRIC J5: in robot coordinates -q5 + 2*sign5*offset5
@@ -372,6 +408,7 @@ pub fn record(scenarios: &str, output: &str) {
             "C06" => sc["entry"].as_str().unwrap().contains("5dof") || sc["dof"] == 5,
             "C08" => sc["limits"] != "none",
             "C16" => sc["stack"].as_str().unwrap().contains("pgram"),
+            "C09" => sc["stack"] != "bare" && !sc["stack"].as_str().unwrap().contains("pgram"),
             _ => true,
         };
         if !keep { continue; }
@@ -423,7 +460,7 @@ pub fn record_follow(output: &str) {
             let ans = call(robot.kin.as_ref(), "inverse_continuing", &want.to_na(), &prev, 0.0);
             let mut ev = json!({"ev": "follow", "k": k + 1, "entry": "inverse_continuing", "dof": 6, "geom": class, "stack": stack_class,
                 "pose_ok": true, "reach": "yes", "pgram": false, "prev": au6(&prev), "prev_in_range": true, "j6_equal": [], "w16": 0, "centres": [0,0,0,0,0,0],
-                "lim": false, "from": [0,0,0,0,0,0], "to": [0,0,0,0,0,0], "plain": [], "free": [], "resolve": [], "twin_shift5": 0,
+                "lim": false, "from": [0,0,0,0,0,0], "to": [0,0,0,0,0,0], "plain": [], "free": [], "resolve": [], "twin_shift5": 0, "fwd_n": 0,
                 "truth": {"known": true, "q": au6(q), "nonsingular": true, "wrist_ok": true, "realised_by_prev": false}});
             match ans {
                 None => { ev["outcome"] = json!("panic"); ev["answers"] = json!([]); out.put(ev); break; }
